@@ -102,7 +102,7 @@ pub fn tokenize_cla(input: &str) -> Result<Vec<CToken>, ParseError> {
                 let mut name = String::new();
                 let mut first_char = true;
                 for (i, c) in &mut chars {
-                    if c == '.' {
+                    if c == '.' && !first_char {
                         break;
                     } else if first_char && c.is_alphabetic() {
                         first_char = false;
@@ -123,11 +123,12 @@ pub fn tokenize_cla(input: &str) -> Result<Vec<CToken>, ParseError> {
                 } else if c.is_alphabetic() {
                     let mut name = c.to_string();
                     while let Some(&(_, c)) = chars.peek() {
-                        if c.is_whitespace() || c == '(' || c == ')' {
-                            break;
-                        } else {
+                        if c.is_alphanumeric() {
                             name.push(c);
                             chars.next();
+                        } else {
+                            // not a part of the name; handled by the main loop
+                            break;
                         }
                     }
                     tokens.push(CName(name))
